@@ -656,6 +656,21 @@ def _names_in(e: Optional[ast.AST]) -> Set[str]:
     return {x.id for x in ast.walk(e) if isinstance(x, ast.Name)} if e is not None else set()
 
 
+def _append_body(body: List[ast.stmt]):
+    """(condition or None, the single statement) for the bodies  [S] , [if c: S]  and
+    [if c: continue ; S]  (the last is `if not c: S`); None otherwise."""
+    if len(body) == 1:
+        b = body[0]
+        if isinstance(b, ast.If) and not b.orelse and len(b.body) == 1:
+            return b.test, b.body[0]
+        return None, b
+    if len(body) == 2 and isinstance(body[0], ast.If) and not body[0].orelse and len(body[0].body) == 1 and isinstance(body[0].body[0], ast.Continue):
+        neg = ast.UnaryOp(op=ast.Not(), operand=body[0].test)
+        ast.copy_location(neg, body[0].test)
+        return neg, body[1]
+    return None
+
+
 def _loops_to_comprehensions(func: ast.AST) -> int:
     """`L = []` immediately followed by `for T in IT: L.append(E)` (optionally under one `if`)
     is the list comprehension `L = [E for T in IT if c]`: same elements, same order, same
@@ -675,13 +690,10 @@ def _loops_to_comprehensions(func: ast.AST) -> int:
                 empty = name is not None and (isinstance(value, ast.List) and not value.elts
                                               or isinstance(value, ast.Call) and isinstance(value.func, ast.Name) and value.func.id == "list"
                                               and not value.args and not value.keywords)
-                if not empty or not isinstance(lp, ast.For) or lp.orelse or len(lp.body) != 1:
+                if not empty or not isinstance(lp, ast.For) or lp.orelse or _append_body(lp.body) is None:
                     i += 1
                     continue
-                b = lp.body[0]
-                test = None
-                if isinstance(b, ast.If) and not b.orelse and len(b.body) == 1:
-                    test, b = b.test, b.body[0]
+                test, b = _append_body(lp.body)
                 ok = (isinstance(b, ast.Expr) and isinstance(b.value, ast.Call) and isinstance(b.value.func, ast.Attribute) and b.value.func.attr == "append"
                       and isinstance(b.value.func.value, ast.Name) and b.value.func.value.id == name and len(b.value.args) == 1 and not b.value.keywords
                       and not isinstance(b.value.args[0], ast.Starred))
@@ -715,12 +727,9 @@ def _append_loops_to_extend(func: ast.AST) -> int:
     for holder in [func] + list(_local_nodes(func)):
         for block in _blocks(holder):
             for i, lp in enumerate(block):
-                if not isinstance(lp, ast.For) or lp.orelse or len(lp.body) != 1:
+                if not isinstance(lp, ast.For) or lp.orelse or _append_body(lp.body) is None:
                     continue
-                b = lp.body[0]
-                test = None
-                if isinstance(b, ast.If) and not b.orelse and len(b.body) == 1:
-                    test, b = b.test, b.body[0]
+                test, b = _append_body(lp.body)
                 if not (isinstance(b, ast.Expr) and isinstance(b.value, ast.Call) and isinstance(b.value.func, ast.Attribute) and b.value.func.attr == "append"
                         and len(b.value.args) == 1 and not b.value.keywords and not isinstance(b.value.args[0], ast.Starred)):
                     continue
@@ -769,6 +778,51 @@ def norm_text(e: Optional[ast.AST]) -> str:
 _CONSUMERS = {"tuple", "list", "set", "frozenset", "sorted", "sum", "min", "max"}
 
 
+def _map_arguments(func: ast.AST) -> int:
+    """tuple(map(f, xs)) is tuple(f(x) for x in xs), and map(d.__getitem__, xs) is d[x] for x in
+    xs, where the map object is handed straight to a consumer that takes all its elements (or
+    is the iterable of a `for` / of `.extend`)."""
+    n = 0
+
+    def as_gen(m: ast.Call) -> Optional[ast.GeneratorExp]:
+        if not (isinstance(m.func, ast.Name) and m.func.id == "map" and len(m.args) == 2 and not m.keywords):
+            return None
+        fn, it = m.args
+        if isinstance(it, ast.Starred) or isinstance(fn, (ast.Lambda, ast.Starred)):
+            return None
+        var = ast.Name(id="_m", ctx=ast.Load())
+        if isinstance(fn, ast.Attribute) and fn.attr == "__getitem__":
+            elt: ast.expr = ast.Subscript(value=fn.value, slice=var, ctx=ast.Load())
+        elif isinstance(fn, (ast.Name, ast.Attribute)):
+            elt = ast.Call(func=fn, args=[var], keywords=[])
+        else:
+            return None
+        if any(isinstance(x, ast.Name) and x.id == "_m" for x in ast.walk(fn)) or any(isinstance(x, ast.Name) and x.id == "_m" for x in ast.walk(it)):
+            return None
+        ge = ast.GeneratorExp(elt=elt, generators=[ast.comprehension(target=ast.Name(id="_m", ctx=ast.Store()), iter=it, ifs=[], is_async=0)])
+        for x in ast.walk(ge):
+            if not hasattr(x, "lineno"):
+                ast.copy_location(x, m)
+        ast.copy_location(ge, m)
+        return ge
+
+    for c in list(_local_nodes(func)):
+        if isinstance(c, ast.Call) and c.args and isinstance(c.args[0], ast.Call):
+            consumer = (isinstance(c.func, ast.Name) and c.func.id in _CONSUMERS | {"any", "all", "dict", "deque"}) or \
+                (isinstance(c.func, ast.Attribute) and c.func.attr in ("extend", "update", "join"))
+            if consumer:
+                ge = as_gen(c.args[0])
+                if ge is not None:
+                    c.args[0] = ge
+                    n += 1
+        elif isinstance(c, (ast.For, ast.comprehension)) and isinstance(c.iter, ast.Call):
+            ge = as_gen(c.iter)
+            if ge is not None:
+                c.iter = ge
+                n += 1
+    return n
+
+
 def _comprehension_arguments(func: ast.AST) -> int:
     """tuple([f(x) for x in xs]) is tuple(f(x) for x in xs) for every consumer that takes all
     the elements."""
@@ -780,6 +834,25 @@ def _comprehension_arguments(func: ast.AST) -> int:
             ast.copy_location(ge, lc)
             c.args[0] = ge
             n += 1
+    return n
+
+
+def _getitem_calls(func: ast.AST) -> int:
+    """`x.__getitem__(k)` is `x[k]`."""
+    n = 0
+    for holder in list(_local_nodes(func)):
+        for field, val in ast.iter_fields(holder):
+            items = val if isinstance(val, list) else [val]
+            for j, e in enumerate(items):
+                if isinstance(e, ast.Call) and isinstance(e.func, ast.Attribute) and e.func.attr == "__getitem__" and len(e.args) == 1 and not e.keywords \
+                        and not isinstance(e.args[0], ast.Starred):
+                    sub = ast.Subscript(value=e.func.value, slice=e.args[0], ctx=ast.Load())
+                    ast.copy_location(sub, e)
+                    if isinstance(val, list):
+                        val[j] = sub
+                    else:
+                        setattr(holder, field, sub)
+                    n += 1
     return n
 
 
@@ -821,6 +894,7 @@ def canonicalise(tree: ast.AST, props: Set[str]) -> int:
     for n in ast.walk(tree):
         if isinstance(n, (ast.FunctionDef, ast.AsyncFunctionDef)):
             cls_name = getattr(n, "_canon_cls", None)
+            total += _map_arguments(n)
             total += _fold_aliases(n, props)
             total += _propagate_pure_locals(n, props, cls_name)
             total += _fold_function(n, props)
@@ -830,4 +904,5 @@ def canonicalise(tree: ast.AST, props: Set[str]) -> int:
                 total += k + _fold_function(n, props)
             total += _comprehension_arguments(n)
             total += _tuple_repetition(n)
+            total += _getitem_calls(n)
     return total
